@@ -262,7 +262,7 @@ class DirectCollocation(SamplingMethod):
     def set_initial(self, stage, master, initial):
         opti = master.opti if hasattr(master, 'opti') else master
         opti.cache_advanced()
-        initial = HashOrderedDict(initial)
+        initial = self.sort_initial(stage, HashOrderedDict(initial))
         algs = get_ranges_dict(stage.algebraics)
         initial_alg = HashDict()
         for a, v in list(initial.items()):
